@@ -1,9 +1,14 @@
 import Proofs.C02
+import Proofs.C02Closed
 #print axioms C02.store_step
 #print axioms C02.store_refines_map
 #print axioms C02.store_refines_map_from_empty
 #print axioms C02.store_independent_of_stale_slots
 #print axioms C02.files_labels
+#print axioms C02.splitField_is_first_piece
+#print axioms C02.fields_are_pieces
+#print axioms C02.line_grammar
+#print axioms C02.nonascii_never_ascii
 #print axioms C02.reader_refines_spec
 #print axioms C02.ignored_lines_inert
 #print axioms C02.scan_iterates
@@ -12,3 +17,11 @@ import Proofs.C02
 #print axioms C02.files_no_leak
 #print axioms C02.files_refine_spec
 #print axioms C02.units_carry
+#print axioms C02.reader_refines_spec_limited
+#print axioms C02.limit_inactive
+#print axioms C02.limit_boundary
+#print axioms C02.files_no_leak_limited
+#print axioms C02.closed_reader_refines_spec
+#print axioms C02.closed_files_refine_spec
+#print axioms C02.closed_values_reported
+#print axioms C02.closed_values_correctly_rounded_partial
